@@ -38,6 +38,22 @@ def replay_case(case, tag, rng, tier):
         for name, why, obs in bads:
             bad("C06." + name, why, obs, pose)
         want = common.expected_measures(m, pose)
+        if rng.random() < 0.3:
+            # measures are translation invariant: the object returned by one move and the receiver of a second, larger move
+            # (and a deep copy taken in between) must all still have the exact measures
+            from props.c07 import vec
+            import copy
+            sib, e1 = call(val.move, vec((1, 2, -1), pose, num))
+            cp, _ = call(copy.deepcopy, val)
+            _, e2 = call(val.move, vec((7, -5, 6), pose, num))
+            out["calls"] += 2
+            if e1 is None and e2 is None:
+                for who, x in (("returned", sib), ("receiver", val), ("copy", cp)):
+                    bads, n = common.check_measures(x, m, pose)
+                    out["calls"] += n
+                    for name, why, obs in bads:
+                        bad("C06.%s_after_moves" % name, "%s of two moves: %s" % (who, why), obs, pose)
+            continue
         if body["k"] == "Polyhedron":
             v, exc = call(G.volume, val)
             out["calls"] += 1
